@@ -133,6 +133,19 @@ def groups(shard, seed, tier="quick"):
                     v["perm"] = list(perm)
                     v["metric"] = mt
                     variants.append(v)
+            if n == 4 and which == 0:
+                # the same runs on an object with an interrupted earlier fit / after a save-load round trip
+                for perm in ((0, 1, 2, 3), (3, 1, 0, 2)):
+                    for k in range(1, 2 * n * n):
+                        v = dict(base)
+                        v["perm"] = list(perm)
+                        v["crash_before"] = k
+                        variants.append(v)
+                for mt in FAMILY:
+                    v = dict(base)
+                    v["metric"] = mt
+                    v["via_load"] = True
+                    variants.append(v)
             yield base, variants
     else:
         _, a, b = shard
@@ -175,7 +188,33 @@ def execute(v):
         X = [v["P"][i] for i in perm]
         prog = {"model": "SupervisedOPF", "mode": "features", "X": X, "metric": v["metric"],
                 "labels": lab}
-        m, Wd = sup.fit_program(prog)
+        model = None
+        if v.get("crash_before"):
+            # the object first ran a fit (on other data of the same size) interrupted at a metric call
+            model = sup.fresh_model("SupervisedOPF", v["metric"], False)
+            prev = {"model": "SupervisedOPF", "mode": "features", "metric": v["metric"],
+                    "X": [[float(7 * i % 5), float(i)] for i in range(n)], "labels": [i % 2 for i in range(n)],
+                    "fault_at": int(v["crash_before"])}
+            try:
+                sup.fit_program(prev, model=model)
+            except Exception:
+                pass
+        m, Wd = sup.fit_program(prog, model=model)
+        if v.get("via_load"):
+            # the classifier is saved and loaded into a freshly constructed default object
+            import os
+            import shutil
+            import tempfile
+            from mc.runner import scratch_dir
+            from opfython.models import SupervisedOPF
+            d = tempfile.mkdtemp(prefix="c11-", dir=scratch_dir())
+            try:
+                path = os.path.join(d, "m.pkl")
+                m.save(path)
+                m = SupervisedOPF()
+                m.load(path)
+            finally:
+                shutil.rmtree(d, ignore_errors=True)
         preds = [int(p) for p in m.predict(np.array(v["queries"], dtype=float))] if v["queries"] else []
         qd = [[float(m.distance_fn(nd.features.copy(), np.array(q, dtype=float)))
                for nd in m.subgraph.nodes] for q in v["queries"]]
@@ -234,6 +273,10 @@ def describe(base, v):
     parts = []
     if v["perm"] != base["perm"]:
         parts.append("permuting the training order to %s" % v["perm"])
+    if v.get("crash_before"):
+        parts.append("an earlier fit on the same object interrupted at its metric call %d" % v["crash_before"])
+    if v.get("via_load"):
+        parts.append("saving and loading into a default object")
     if v.get("metric") != base.get("metric"):
         parts.append("switching the metric %s -> %s" % (base.get("metric"), v.get("metric")))
     return " and ".join(parts) or "no change"
